@@ -118,8 +118,9 @@ structure PState where
   inTernary : Bool := false
   /-- resolved `\N{name}` escapes (the Unicode name table is a parameter of the model) -/
   names : List (Str × Nat) := []
-  /-- ghost: number of `not` tokens consumed by `e4` and then dropped -/
-  droppedNot : Nat := 0
+  /-- ghost: number of events after which the tree cannot print back as the source — a `not` consumed by
+  `e4` and then dropped, or a positional argument appended after a keyword argument (`order_error`) -/
+  lossy : Nat := 0
   deriving Repr
 
 def P (α : Type) := PState → Except Err (α × PState)
@@ -277,6 +278,14 @@ def argsSetKw (a : Node) (k v : Node) : Node :=
   | .args b pos commas colons keys vals oe => .args b pos commas colons (keys ++ [k]) (vals ++ [v]) oe
   | n => n
 
+def argsHasKw : Node → Bool
+  | .args _ _ _ _ keys _ _ => keys.length > 0
+  | _ => false
+
+/-- ghost: record that `ArgumentNode.append` is about to set `order_error` -/
+def noteOrder (a : Node) : P Unit :=
+  P.modify (fun st => if argsHasKw a then { st with lossy := st.lossy + 1 } else st)
+
 /-- the `while not isinstance(s, EmptyNode)` loop of `args()` -/
 def argsLoop (stmt : P Node) : Nat → Node → Node → P Node
   | 0, _, _ => P.fail .fuel
@@ -284,6 +293,7 @@ def argsLoop (stmt : P Node) : Nat → Node → Node → P Node
     if s.isEmpty then pure a
     else if ← accept .comma then
       let c ← createSymbol (← prev)
+      noteOrder a
       let a := argsAppend (argsAddComma a c) s
       let s' ← stmt
       argsLoop stmt k a s'
@@ -301,7 +311,9 @@ def argsLoop (stmt : P Node) : Nat → Node → Node → P Node
           let a := argsAddComma a c
           let s' ← stmt
           argsLoop stmt k a s'
-    else pure (argsAppend a s)
+    else do
+      noteOrder a
+      pure (argsAppend a s)
 
 /-- `args()` -/
 def args (stmt : P Node) (k : Nat) : P Node := do
@@ -491,7 +503,7 @@ def e4 (stmt : P Node) (k : Nat) : P Node := do
           let r ← e5 stmt k
           create (.binop (.cmp "not in".toList) (Base.at left.lineno left.colno) left o r)
       else do
-        P.modify (fun s => { s with droppedNot := s.droppedNot + 1 })
+        P.modify (fun s => { s with lossy := s.lossy + 1 })
         pure left
     else pure left
 
@@ -667,7 +679,7 @@ def codeblock : Nat → P Node
 /-- result of `Parser(code, file).parse()` -/
 structure ParseOk where
   tree : Node
-  droppedNot : Nat
+  lossy : Nat
   deriving Repr
 
 /-- `Parser.__init__` + `parse()` on a lexer result -/
@@ -682,7 +694,7 @@ def parseToks (names : List (Str × Nat)) (lr : LexResult) (fuel : Nat) : Except
     | .ok (block, s2) =>
       match expect .eof s2 with
       | .error e => .error e
-      | .ok (_, s3) => .ok { tree := block, droppedNot := s3.droppedNot }
+      | .ok (_, s3) => .ok { tree := block, lossy := s3.lossy }
 
 /-- default fuel: one more than the number of tokens plus a constant for the entry points -/
 def defaultFuel (lr : LexResult) : Nat := lr.toks.length + 3
